@@ -18,7 +18,9 @@
 
    The module is the oracle for both bindings:
      R  MC_FiniteMap*.cfg / MC_FiniteSet*.cfg : one JSON line per transition -> harness/c02_replay
-     V  Trace_FiniteMap                       : recorded executions of the real containers                      *)
+     V  Trace_FiniteMap                       : recorded executions of the real containers
+   FiniteMapExt (enumerator objects, size / list constructors; its own Next and configurations) extends it,
+   HashChains runs it as ghost state, MapBuild is the value-level companion (lists -> maps, sets, texts).        *)
 EXTENDS Integers, Sequences, FiniteSets, TLC, Json, SequencesExt
 
 CONSTANTS NH,        \* handles are 1..NH
@@ -123,8 +125,8 @@ Diff(h, g2, g) == /\ SetOps /\ h \in Live /\ g2 \in Live /\ g \in H
 CopyHandle(h, g) == /\ h \in Live /\ g \in Dead
                     /\ hb' = [hb EXCEPT ![g] = hb[h]] /\ UNCHANGED blk
                     /\ Log([op |-> "copyHandle", h |-> h, g |-> g], {})
-\* g = h (self-assignment of one and the same object) is outside the property (DESIGN.md 6, C02) and not generated;
-\* assignment between two handles that already share a block is
+\* assignment between two distinct handle objects (which may already share a block); the assignment of an object to
+\* itself is AssignSelf below
 AssignHandle(h, g) == /\ h \in Live /\ g \in Live /\ g # h
                       /\ LET hb2 == [hb EXCEPT ![g] = hb[h]] IN
                          /\ hb' = hb2 /\ blk' = Gc(hb2, blk)
@@ -133,12 +135,38 @@ DropHandle(h) == /\ h \in Live /\ Cardinality(Live) > 1
                  /\ LET hb2 == [hb EXCEPT ![h] = 0] IN
                     /\ hb' = hb2 /\ blk' = Gc(hb2, blk)
                  /\ Log([op |-> "dropHandle", h |-> h], {})
+\* m = m: assigning a container object to itself changes nothing.  The containers are handles that "are copied by
+\* reference" (doc.h, Containers / Reference-counted objects): after x = y, x denotes what y denotes - for x = x that
+\* is what it denoted before; Array::operator= (and with it Map/Dic) returns at once when this == &b.
+AssignSelf(h) == /\ h \in Live
+                 /\ UNCHANGED <<hb, blk>>
+                 /\ Log([op |-> "assignSelf", h |-> h], {})
+
+(* calls that belong to the wider public surface; they are not part of Next here (the bounds of the MC_FiniteMap /
+   MC_FiniteSet configurations stay what they were) but of the Next of FiniteMapExt, and HashChains / Trace_FiniteMap
+   use them as well *)
+\* a container constructed with a size argument bound to g: HashMap(n), HashDic(n), Set(n) (n entries expected: the
+\* table gets the next power of two of bins); for Map/Dic the harness calls reserve(n) on a new map.  At this level
+\* the argument has no effect whatsoever: the result is an empty map.
+NewSized(g, n) == /\ g \in H
+                  /\ NewBlock(g, Empty, [op |-> "new", h |-> g, g |-> g, n |-> n])
+\* a container built from a list of key/value pairs: Map / Dic / Set from a braced list, Map(k, v)(k, v)..., Set(Array),
+\* or (HashMap, HashDic: no such constructor) a new container filled with set() in this order.  A key that occurs
+\* twice keeps its last value.  s: sequence of [k, v] records
+RECURSIVE ListMap(_, _)
+ListMap(s, n) == IF n = 0 THEN Empty ELSE MapPut(ListMap(s, n - 1), s[n].k, s[n].v)
+FromList(g, s) == /\ g \in H
+                  /\ NewBlock(g, ListMap(s, Len(s)), [op |-> "list", h |-> g, g |-> g, kv |-> s])
+\* *m.find(k) = v: writing through the pointer the non-const find() returns; never inserts. r: a pointer was returned
+Poke(h, k, v) == /\ h \in Live
+                 /\ InPlace(h, IF k \in Dom(M(h)) THEN MapPut(M(h), k, v) ELSE M(h),
+                            [op |-> "poke", h |-> h, k |-> k, v |-> v, r |-> HasR(M(h), k)], FALSE)
 
 -------------------------------------------------------------------------------
 Next == /\ Len(hist) < MaxOps
         /\ \/ \E h \in H, k \in K, v \in V : SetKV(h, k, v)
            \/ \E h \in H, k \in K : Index(h, k) \/ RemoveK(h, k)
-           \/ \E h \in H : Clear(h) \/ Dup(h) \/ DropHandle(h) \/ NewEmpty(h)
+           \/ \E h \in H : Clear(h) \/ Dup(h) \/ DropHandle(h) \/ NewEmpty(h) \/ AssignSelf(h)
            \/ \E h, g \in H : AddMap(h, g) \/ Clone(h, g) \/ CopyHandle(h, g) \/ AssignHandle(h, g)
            \/ \E h, g2, g \in H : Union(h, g2, g) \/ Inter(h, g2, g) \/ Diff(h, g2, g)
 
@@ -166,6 +194,13 @@ LastCallOK ==
                               /\ MapLen(blk'[hb'[r.h]]) = MapLen(M(r.h)) - r.r
                               /\ \A k \in K \ {r.k} : FindR(blk'[hb'[r.h]], k) = FindR(M(r.h), k)
         /\ r.op = "clear"  => MapLen(blk'[hb'[r.h]]) = 0
+        /\ r.op = "list"   => /\ \A k \in K : HasR(blk'[hb'[r.g]], k) = 1 <=> \E i \in 1..Len(r.kv) : r.kv[i].k = k
+                              /\ \A i \in 1..Len(r.kv) : (\A j \in (i+1)..Len(r.kv) : r.kv[j].k # r.kv[i].k)
+                                                             => FindR(blk'[hb'[r.g]], r.kv[i].k) = r.kv[i].v + 1
+        /\ r.op = "assignSelf" => hb' = hb /\ blk' = blk
+        /\ r.op = "poke"   => /\ Dom(blk'[hb'[r.h]]) = Dom(M(r.h))
+                              /\ FindR(blk'[hb'[r.h]], r.k) = IF r.r = 1 THEN r.v + 1 ELSE 0
+                              /\ \A k \in K \ {r.k} : FindR(blk'[hb'[r.h]], k) = FindR(M(r.h), k)
         /\ r.op = "add"    => \A k \in K : FindR(blk'[hb'[r.h]], k) =
                                   IF HasR(M(r.g), k) = 1 THEN FindR(M(r.g), k) ELSE FindR(M(r.h), k)
         /\ r.op = "union"  => \A k \in K : HasR(blk'[hb'[r.g]], k) = 1 <=> (HasR(M(r.h), k) = 1 \/ HasR(M(r.g2), k) = 1)
@@ -179,7 +214,7 @@ Independence ==
             touched == {hb[r.h], hb'[r.h]} \cup (IF "g" \in DOMAIN r THEN {hb'[r.g]} ELSE {})
         IN \A b \in B : (b \notin touched /\ RC(b) > 0 /\ \E h \in H : hb'[h] = b) => blk'[b] = blk[b]]_vars
 \* a clone / set-algebra result never aliases another handle
-CloneFresh == [][(hist' # hist /\ hist' # <<>> /\ hist'[Len(hist')].op \in {"clone", "new", "union", "inter", "diff"}) =>
+CloneFresh == [][(hist' # hist /\ hist' # <<>> /\ hist'[Len(hist')].op \in {"clone", "new", "list", "union", "inter", "diff"}) =>
                    LET r == hist'[Len(hist')] IN \A x \in H \ {r.g} : hb'[x] # hb'[r.g]]_vars
 \* in set mode every stored value is 1
 SetValues == (SetOps /\ ~MapOps) => \A b \in B : \A k \in Dom(blk[b]) : blk[b][k] = 1
